@@ -490,6 +490,9 @@ func c02R3(c *Ctx, r *Report) {
 					guard := ""
 					for i := len(stack) - 1; i >= 0; i-- {
 						if ifs, ok := stack[i].(*ast.IfStmt); ok {
+							if ifs.Else != nil && ifs.Else.Pos() <= as.Pos() && as.End() <= ifs.Else.End() {
+								continue // in the else branch of a dispatch on something else (the bool target)
+							}
 							guard = exprStr(ifs.Cond)
 							break
 						}
